@@ -1,5 +1,5 @@
 //@PROBE file=src/trackers/visual_sort/simple_api.rs test=verif_probe_tracker_constraints_c20 clauses=tracker_constraints
-//@BOUND Sort and VisualSort (IoU(0.3) and Mahalanobis, max idle 5), a 16-step script with slow, fast-moving (8 px per step) and re-appearing objects (gaps 1..=4); constraint tables: on the slow objects: none / non-binding [(1, 10), (2, 20)] / non-binding with re-appearances at gaps beyond the table [(1, 0.08)] / a gap configured twice, first limit non-binding, second binding [(1, 0.08), (1, 0.001)] / unsorted [(2, 0.2), (1, 0.08), (4, 0.3)] - all must give the trace of the unconstrained tracker; binding [(1, 0.05), (3, 0.5)] and [(9, 0.05)] (an entry beyond the idle window governing all smaller gaps): no detection is attached to a track farther away (in units of the summed bounding radii, margin 20 %) than the limit for their epoch gap
+//@BOUND dist_in_2r against the centre distance over the summed half diagonals for 15 pairs of boxes of every orientation; Sort and VisualSort (IoU(0.3) and Mahalanobis, max idle 5), a 16-step script with slow, fast-moving (8 px per step) and re-appearing objects (gaps 1..=4); constraint tables: on the slow objects: none / non-binding [(1, 10), (2, 20)] / non-binding with re-appearances at gaps beyond the table [(1, 0.08)] / a gap configured twice, first limit non-binding, second binding [(1, 0.08), (1, 0.001)] / unsorted [(2, 0.2), (1, 0.08), (4, 0.3)] - all must give the trace of the unconstrained tracker; binding [(1, 0.05), (3, 0.5)] and [(9, 0.05)] (an entry beyond the idle window governing all smaller gaps): no detection is attached to a track farther away (in units of the summed bounding radii, margin 20 %) than the limit for their epoch gap
 #[cfg(test)]
 mod verif_probe_tracker_constraints_c20 {
     // Bounded stand-in for the tracker-level clauses of C20 (predict* drive worker threads: out of both verifiers' reach).
@@ -92,6 +92,18 @@ mod verif_probe_tracker_constraints_c20 {
             let _ = fast_continued;
             }
         } }
+        // ---- the distance the constraints are applied to: centre distance in units of the sum of the two bounding radii (half diagonals),
+        // whatever the orientation of the boxes
+        for (ang_a, ang_b) in [(None, None), (Some(0.0f32), Some(std::f32::consts::FRAC_PI_4)), (Some(0.6), Some(0.6)), (Some(-1.1), Some(2.0)), (None, Some(7.0))] {
+            for (asp, h, dx, dy) in [(1.0f32, 10.0f32, 12.0f32, 0.0f32), (0.4, 50.0, -7.0, 31.0), (3.0, 2.0, 0.5, 0.25)] {
+                cases += 1;
+                let (a, b) = (Universal2DBox::new(100.0, 200.0, ang_a, asp, h), Universal2DBox::new(100.0 + dx, 200.0 + dy, ang_b, asp * 1.5, h * 0.8));
+                let r = |x: &Universal2DBox| 0.5 * (((x.aspect * x.height) as f64).powi(2) + (x.height as f64).powi(2)).sqrt();
+                let want = ((dx as f64).powi(2) + (dy as f64).powi(2)).sqrt() / (r(&a) + r(&b));
+                let got = Universal2DBox::dist_in_2r(&a, &b) as f64;
+                if (got - want).abs() > 1e-4 * want + 1e-6 { failures.push(format!("PROBE input: boxes (angle {:?}, aspect {}, height {}) and (angle {:?}) {} / {} apart: tracker_constraints.distance_is_centre_distance_in_summed_bounding_radii: dist_in_2r = {} but the centre distance over the summed half diagonals is {}", ang_a, asp, h, ang_b, dx, dy, got, want)); }
+            }
+        }
         eprintln!("PROBE cases={} nontrivial={}", cases * 16, cases * 16);
         for f in failures.iter().take(12) { eprintln!("{}", f); }
         assert!(failures.is_empty(), "PROBE found {} failing inputs; first: {}", failures.len(), failures[0]);
